@@ -341,46 +341,30 @@ func (s *gridScreen) writeTokens(tokens []GraphemeToken) {
 			s.mergeIntoPreviousCell(text)
 			continue
 		}
+		// A cluster is one character, of one code point or of several: it takes the
+		// cells its width says, its first code point stands for it in chars and
+		// the cell keeps the whole text.
+		r, _ := utf8.DecodeRuneInString(text)
+		width := tok.Width
+		if width < 1 {
+			width = 1
+		}
+		if width > s.size.X {
+			width = s.size.X
+		}
+		if s.cursorPos.X+width > s.size.X {
+			if s.autoWrap {
+				s.moveCursor(-s.cursorPos.X, 1, false, true)
+			} else {
+				s.cursorPos.X = s.size.X - width
+			}
+		}
 		if utf8.RuneCountInString(text) == 1 {
-			r, _ := utf8.DecodeRuneInString(text)
-			width := tok.Width
-			if width < 1 {
-				width = 1
-			}
-			if width > s.size.X {
-				width = s.size.X
-			}
-			if s.cursorPos.X+width > s.size.X {
-				if s.autoWrap {
-					s.moveCursor(-s.cursorPos.X, 1, false, true)
-				} else {
-					s.cursorPos.X = s.size.X - width
-				}
-			}
-			s.rawWriteRune(s.cursorPos.X, s.cursorPos.Y, r, width, CRText)
-			s.moveCursor(width, 0, true, true)
-			continue
+			// one code point (an invalid byte is kept as U+FFFD)
+			text = string(r)
 		}
-		for len(text) > 0 {
-			r, size := utf8.DecodeRuneInString(text)
-			if size == 0 || r == utf8.RuneError && size == 1 {
-				break
-			}
-			text = text[size:]
-			width := runeCellWidth(r)
-			if width > s.size.X {
-				width = s.size.X
-			}
-			if s.cursorPos.X+width > s.size.X {
-				if s.autoWrap {
-					s.moveCursor(-s.cursorPos.X, 1, false, true)
-				} else {
-					s.cursorPos.X = s.size.X - width
-				}
-			}
-			s.rawWriteRune(s.cursorPos.X, s.cursorPos.Y, r, width, CRText)
-			s.moveCursor(width, 0, true, true)
-		}
+		s.rawWriteCluster(s.cursorPos.X, s.cursorPos.Y, r, text, width, CRText)
+		s.moveCursor(width, 0, true, true)
 	}
 }
 
@@ -442,6 +426,12 @@ func (s *gridScreen) rawWriteRunes(x int, y int, b []rune, cr ChangeReason) {
 }
 
 func (s *gridScreen) rawWriteRune(x int, y int, r rune, width int, cr ChangeReason) {
+	s.rawWriteCluster(x, y, r, string(r), width, cr)
+}
+
+// rawWriteCluster writes a character of one or several code points: r, its
+// first code point, stands for it in chars, the cell keeps the whole text.
+func (s *gridScreen) rawWriteCluster(x int, y int, r rune, text string, width int, cr ChangeReason) {
 	if width < 1 {
 		width = 1
 	}
@@ -456,7 +446,7 @@ func (s *gridScreen) rawWriteRune(x int, y int, r rune, width int, cr ChangeReas
 	}
 
 	s.chars[y][x] = r
-	s.cellText[y][x] = string(r)
+	s.cellText[y][x] = text
 	s.cellWidth[y][x] = uint8(width)
 	s.cellCont[y][x] = false
 	for i := 1; i < width; i++ {
